@@ -54,6 +54,7 @@ UNITS = {
     'ANYDISPATCH': dict(template='anydispatch.rs', rlimit=30),
     'DEENTRY': dict(template='deentry.rs', rlimit=30),
     'SERENTRY': dict(template='serentry.rs', rlimit=30),
+    'DESCDISPATCH': dict(template='descdispatch.rs', rlimit=30),
 }
 
 VARW = 'PROVED for every value (units SERSTR + READERS): strings, symbols and binaries of ANY length and content, outside and inside arrays -- the serializer writes a valid str8/str32, sym8/sym32, vbin8/vbin32 encoding whose size field counts octets ([C05.*.encoding], [C05.*.array-element]); the decoder reads both width variants by the AMQP layout and accepts every one of them from a reliable reader ([C05.*.decoding], [C05.*.every-variant-accepted]); lemma_var_round_trip joins the two: decode(encode(x) ++ rest) == x, consuming exactly the encoding; serialized_size agrees with the octets written ([C20.size.*]); compound headers are decoded to the body length and count the layout defines ([C05.compound.header-decoding])'
@@ -123,7 +124,7 @@ PROPS = {
             dict(name='rt_array_of_zero_width', kind='agreement', target='serde_amqp::{to_vec,from_slice}::<Value>', args=['C03.array-of-zero-width'],
                  claim='the same round trip for the values in which an array of two or more zero-width elements (null, empty list) occurs', bound='30 values (as above, restricted to that class)'),
         ],
-        units=['SERHDR', 'SERSTR', 'SERFIX', 'READERS', 'MESSAGE', 'SEQACCESS', 'VALUESER', 'ANYDISPATCH', 'DEENTRY', 'SERENTRY'], kani=K_RT, level='proof', title='Codec round trip (fixed- and variable-width primitives, compound headers)',
+        units=['SERHDR', 'SERSTR', 'SERFIX', 'READERS', 'MESSAGE', 'SEQACCESS', 'VALUESER', 'ANYDISPATCH', 'DEENTRY', 'SERENTRY', 'DESCDISPATCH'], kani=K_RT, level='proof', title='Codec round trip (fixed- and variable-width primitives, compound headers)',
         lemmas={'READERS': ['lemma_var_round_trip', 'lemma_be32_inverse', 'lemma_be64_inverse', 'lemma_fixed_round_trip_u64', 'lemma_fixed_round_trip_u32', 'lemma_fixed_round_trip_u8', 'lemma_fixed_round_trip_i32', 'lemma_fixed_round_trip_i64'], 'MESSAGE': ['lemma_message_round_trip', 'lemma_run', 'lemma_fold_concat', 'lemma_fold_opt']},
         assumptions=[VARW,
             'PROVED for every value: the fixed-width primitives listed in the obligations (Kani harnesses, loop-free / fully unwound over the full domain) and the compound header writers (Verus)',
@@ -136,7 +137,7 @@ PROPS = {
                 dict(name='spec_defaults_of_elided_fields', kind='agreement', target='serde_amqp::from_slice~fe2o3_amqp_types-composites', args=['C05.spec-defaults'],
                      claim='a composite whose defaulted fields are elided (list0, short list) or sent as null decodes to the defaults of the SPECIFICATION, written out in the probe (header: durable false, priority 4, first-acquirer false, delivery-count 0; open: max-frame-size 4294967295, channel-max 65535; begin: handle-max 4294967295; attach: snd-settle-mode mixed, rcv-settle-mode first, incomplete-unsettled false; flow: drain / echo false; transfer: more / aborted / batchable / resume false; disposition: settled / batchable false; detach: closed false; source / target: durable none, expiry-policy session-end, timeout 0, dynamic false)',
                      bound='12 reference encodings written by hand from the specification, 36 field checks (derive-macro output is outside the Verus subset)')],
-        units=['SERHDR', 'SERSTR', 'SERFIX', 'READERS', 'VALUESER', 'MESSAGE', 'SEQACCESS', 'ANYDISPATCH', 'DEENTRY', 'SERENTRY'], kani=K_RT + K_DEC, level='proof', title='Valid encodings / every variant accepted (fixed- and variable-width primitives, compound headers)',
+        units=['SERHDR', 'SERSTR', 'SERFIX', 'READERS', 'VALUESER', 'MESSAGE', 'SEQACCESS', 'ANYDISPATCH', 'DEENTRY', 'SERENTRY', 'DESCDISPATCH'], kani=K_RT + K_DEC, level='proof', title='Valid encodings / every variant accepted (fixed- and variable-width primitives, compound headers)',
         lemmas={'READERS': ['lemma_var_round_trip', 'lemma_be32_inverse', 'lemma_be64_inverse', 'lemma_fixed_round_trip_u64', 'lemma_fixed_round_trip_u32', 'lemma_fixed_round_trip_u8', 'lemma_fixed_round_trip_i32', 'lemma_fixed_round_trip_i64']},
         assumptions=[VARW,
             'PROVED for every value: the fixed-width primitives listed in the obligations (Kani harnesses, loop-free / fully unwound over the full domain) and the compound header writers (Verus)',
@@ -162,7 +163,7 @@ PROPS = {
             'compound header writers: the call-site fact count <= byte length (every element occupies at least one byte in this implementation) is assumed; the serde SerializeSeq/Map impls that call them are not under contract'] + ['to_value/from_value vs bytes: decided only on the samples of the bounded probes tree_vs_bytes_* (value/ser.rs and value/de.rs are serde visitor code outside the Verus subset)',
             'PROVED for every input (unit READERS): SliceReader and IoReader satisfy ONE Read contract (peek/peek_bytes consume nothing, next/read_exact/read_bytes consume exactly what they return, in order), so decoding from a slice and from a stream see the same bytes and leave the same bytes behind; the LazyValue/byte_buf scanner takes exactly one encoded value (length by the AMQP constructor rule) -- the decoders built on top (de.rs) are not under contract']),
     'C04': dict(
-        units=['READERS', 'SEQACCESS', 'BYTEREADER', 'DEENTRY'], kani=K_TOTAL3 + K_HDR_QUICK + K_HDR_THOROUGH, level='proof', title='Decoding untrusted bytes (reader layer proved; decoders bounded)',
+        units=['READERS', 'SEQACCESS', 'BYTEREADER', 'DEENTRY', 'DESCDISPATCH'], kani=K_TOTAL3 + K_HDR_QUICK + K_HDR_THOROUGH, level='proof', title='Decoding untrusted bytes (reader layer proved; decoders bounded)',
         probes=[
             dict(name='nest_list32', target='serde_amqp::from_slice::<Value>', args=['nest', '100000'],
                  claim='decoding 100000 nested list32 headers (a 900 KB input) as Value returns (Ok or Err) instead of exhausting an 8 MiB stack',
@@ -242,7 +243,7 @@ PROPS = {
             'resumption: ReceiverInner::on_resuming_transfer is under contract in unit REASM (a resuming transfer for another delivery is not spliced with the buffered one); trimming the buffer to the sender\'s resume point (keep_buffer_till_section_number_and_offset) is an assumed contract (it only trims)',
             'interleaving with other links of the session is the routing contract of unit SESSION (C11.route.transfer)']),
     'C18': dict(
-        units=['TXN', 'TXNCTRL', 'TXNCOORD', 'SENDSPLIT', 'FRAMEENC', 'SESSWIRING', 'ACCSESS', 'TXNDROP'], kani=[], level='proof', title='Transactions: listener-side resource table, controller-side wire content',
+        units=['TXN', 'TXNCTRL', 'TXNCOORD', 'SENDSPLIT', 'FRAMEENC', 'SESSWIRING', 'ACCSESS', 'TXNDROP', 'DESCDISPATCH'], kani=[], level='proof', title='Transactions: listener-side resource table, controller-side wire content',
         assumptions=[ASYNC,
             'the wrapped plain session is a stand-in with a ghost `delivered` log; built as with features transaction+acceptor',
             'allocate_transaction_id: partial correctness only (the uuid retry loop has no termination argument)',
